@@ -191,6 +191,69 @@ theorem C14_settles (evs : List Ev) :
   rw [resetFirst_now] at *
   exact settles_of_inv info _ hinv0 hr0
 
+
+/-! ### what is routed by has a pool -/
+
+theorem setServers_of_nodup (ns : List Node) (h : AddrNodup ns) : setServers ns = ns := by
+  unfold setServers
+  suffices hgen : ∀ (acc rest : List Node), AddrNodup (acc ++ rest) →
+      rest.foldl (fun acc n => if acc.any (·.addr = n.addr) then acc else acc ++ [n]) acc = acc ++ rest by
+    simpa using hgen [] ns (by simpa using h)
+  intro acc rest
+  induction rest generalizing acc with
+  | nil => intro _; simp
+  | cons n rest ih =>
+    intro hnd
+    rw [List.foldl_cons]
+    have hno : ¬ (acc.any (·.addr = n.addr)) = true := by
+      intro hany
+      rw [List.any_eq_true] at hany
+      obtain ⟨m, hm, hma⟩ := hany
+      have hma' : m.addr = n.addr := by simpa using hma
+      unfold AddrNodup at hnd
+      rw [List.map_append, List.nodup_append] at hnd
+      exact hnd.2.2 m.addr (List.mem_map_of_mem hm) n.addr (by simp) hma'
+    rw [if_neg hno]
+    have := ih (acc ++ [n]) (by simpa [List.append_assoc] using hnd)
+    simpa [List.append_assoc] using this
+
+theorem serverRole_mem (ns : List Node) (h : AddrNodup ns) (n : Node) (hn : n ∈ ns) :
+    serverRole ns n.addr = some n.isSlave := by
+  induction ns with
+  | nil => exact absurd hn (by simp)
+  | cons m rest ih =>
+    unfold AddrNodup at h
+    simp only [List.map_cons, List.nodup_cons] at h
+    by_cases hm : m.addr = n.addr
+    · rcases List.mem_cons.mp hn with he | hr
+      · subst he; simp [serverRole]
+      · exact absurd (by rw [hm]; exact List.mem_map_of_mem hr) h.1
+    · rcases List.mem_cons.mp hn with he | hr
+      · subst he; exact absurd rfl hm
+      · have := ih h.2 hr
+        simpa [serverRole, List.find?_cons, hm] using this
+
+/-- **no slot is routed to a node without a pool**: in a settled state (flag down, both sides idle) whose published
+    description lists every address once, every slot the table routes goes to a master that has a pool in the master
+    role, and each of its replicas has a pool in the replica role. (This is what the reset-last order broke.) -/
+theorem C14_routed_nodes_have_pools (evs : List Ev)
+    (hg : (mrun info evs).gpc = .idle) (ht : (mrun info evs).tpc = .idle) (hc : (mrun info evs).r.changed = false)
+    (ns : List Node) (hnd : AddrNodup ns)
+    (hs : (mrun info evs).r.servers = setServers ns) (hsets : (mrun info evs).r.sets = setReplicasets ns)
+    (slot : Nat) (p : Node × List Node) (hp : slotTable (mrun info evs).table slot = some p) :
+    poolRole (mrun info evs).pools p.1.addr = some false ∧ ∀ sl ∈ p.2, poolRole (mrun info evs).pools sl.addr = some true := by
+  have hclean := C14_handover info evs hg ht hc
+  have hmem : p ∈ setReplicasets ns := by
+    rw [hclean.2, hsets] at hp
+    exact (C14.C14_table _ slot p hp).1
+  have hok := C14.C14_sets_sound ns p hmem
+  rw [setServers_of_nodup ns hnd] at hs
+  constructor
+  · rw [hclean.1, hs, serverRole_mem ns hnd p.1 hok.1, hok.2.1]
+  · intro sl hsl
+    have := hok.2.2 sl hsl
+    rw [hclean.1, hs, serverRole_mem ns hnd sl this.1, this.2.1]
+
 /-! ### the order the code had: flag taken down at the end of the rebuild -/
 
 def v1 : Bytes := [36, 50, 54, 52, 13, 10, 97, 97, 97, 97, 97, 97, 97, 97, 97, 97, 97, 97, 97, 97, 97, 97, 97, 97, 97, 97, 97, 97, 97, 97, 97, 97, 97, 97, 97, 97, 97, 97, 97, 97, 97, 97, 97, 97, 97, 97, 32, 49, 46, 49, 46, 49, 46, 49, 58, 49, 64, 50, 32, 109, 97, 115, 116, 101, 114, 32, 45, 32, 48, 32, 48, 32, 49, 32, 99, 111, 110, 110, 101, 99, 116, 101, 100, 32, 48, 45, 53, 52, 54, 48, 10, 98, 98, 98, 98, 98, 98, 98, 98, 98, 98, 98, 98, 98, 98, 98, 98, 98, 98, 98, 98, 98, 98, 98, 98, 98, 98, 98, 98, 98, 98, 98, 98, 98, 98, 98, 98, 98, 98, 98, 98, 32, 49, 46, 49, 46, 49, 46, 50, 58, 49, 64, 50, 32, 109, 97, 115, 116, 101, 114, 32, 45, 32, 48, 32, 48, 32, 49, 32, 99, 111, 110, 110, 101, 99, 116, 101, 100, 32, 53, 52, 54, 49, 45, 49, 48, 57, 50, 50, 10, 99, 99, 99, 99, 99, 99, 99, 99, 99, 99, 99, 99, 99, 99, 99, 99, 99, 99, 99, 99, 99, 99, 99, 99, 99, 99, 99, 99, 99, 99, 99, 99, 99, 99, 99, 99, 99, 99, 99, 99, 32, 49, 46, 49, 46, 49, 46, 51, 58, 49, 64, 50, 32, 109, 97, 115, 116, 101, 114, 32, 45, 32, 48, 32, 48, 32, 49, 32, 99, 111, 110, 110, 101, 99, 116, 101, 100, 32, 49, 48, 57, 50, 51, 45, 49, 54, 51, 56, 51, 10, 13, 10]
